@@ -30,6 +30,9 @@ CHECKS = {
  "C10": dict(level="exploration", technique="deterministic simulation of the allocator's environment: both allocator WAT copies run on wazero with memory.grow gated by the simulator (refused at seeded operations), a simulated client that fills every payload byte, seeded malloc/free histories over a configuration swarm; full heap-layout oracle (tiling, free-list membership, overlap, client patterns, justified failure) after every operation; loop-fuel step bound; shrunk replayable tapes",
    text="Seeded search over configurations and malloc/free histories with injected grow refusals. After every operation the harness re-derives the complete heap layout from linear memory: blocks tile [heap_base+48, heap_ptr) exactly, every tile is live or on exactly one free list, fixed-list counts match, live blocks are aligned, inside heap and memory, large enough, non-overlapping and still hold the client's bytes; a 0 result must be justified (no fitting block on the class list or the general list, no room below heap_top, and growing refused by the environment or impossible within the maximum). Evidence, not proof.",
    note="trusts watutil.Wat2Wasm and the vendored wazero to execute the allocator faithfully; the grow seam is a text substitution of memory.grow by a wasm wrapper that asks the host and then executes the real instruction; heaps up to 64 pages", ref="DESIGN.md section 4 C10"),
+ "C13": dict(level="exploration", technique="deterministic simulation of the allocator under compiled Wa map drivers: generated drivers per key kind x value kind compiled by the real pipeline, seeded operation histories checked step by step against a Go map reference model, executed under plain and under seeded allocator fault modes (poison on free, dirty fresh memory, immediate reuse, quarantine, scattered placement) with double-free / zeroing / write-after-free monitors; shrunk replayable tapes",
+   text="Model-based seeded search: every put/overwrite/get/comma-ok/delete/len/range/alias result of the real runtime map (9 key kinds x 4 value kinds) is compared with a Go map model, on histories with ascending/descending/delete-in-order/churn phases and key pools from 2 to 2000, first on the plain allocator and again under an injected allocator fault mode that makes stale tree-node pointers visible. Evidence, not proof.",
+   note="trusts the Go model and the key/value encodings mirrored in Go; NaN keys excluded; iteration order not compared; the allocator seam is a WAT text rewrite executed by the repository's own assembler and wazero", ref="DESIGN.md section 4 C13"),
  "C25": dict(level="fault_enumeration", technique="deterministic simulation of the byte-stream transport: seeded packet sequences through the real SLIP/SLIPMUX writer and reader, complete enumeration of every single transient-empty-read position x kind per stream, plus seeded multi-stall / bounded-chunk schedules; shrunk replayable tapes",
    text="Every generated stream is read back fault-free and under every single stall position and kind (complete for one fault per stream up to the size limit), then under seeded multi-fault schedules; payloads and frame types must equal what was written and every packet must be delivered once the bytes are available. Streams are sampled, the single-fault space per stream is enumerated.",
    note="trusts the harness consumer loop (concatenate isPrefix fragments) as the documented reader protocol; transient reads limited to (0,nil),(0,EOF),(0,timeout); no concurrent writers", ref="DESIGN.md section 4 C25"),
